@@ -535,6 +535,9 @@ func (e *Engine) isMonitorGuardedKey(key string) bool {
 				if o == typ {
 					return true
 				}
+				if o == "ghost:"+typ && strings.HasPrefix(field, "ghost$") {
+					return true
+				}
 			}
 		}
 		md := pc.Monitors[typ]
